@@ -227,8 +227,10 @@ pub fn random_histories<W: Write>(cx: &mut Ctx<W>, rng: &mut ChaCha8Rng, n: usiz
         let weights: Vec<i64> = match wmode {
             0 => vec![NAN_W, 1, 2, 3],
             1 => vec![1, 2, 3, 5],
-            // real weights that are easy to mistreat: zero and a negative one
-            3 => vec![0, -2, 1, 4],
+            // real weights that are easy to mistreat: zero and a negative one (no negative weight when
+            // derived graphs are recorded: to_single_edges adds weights up, and a sum of -1 would collide
+            // with the trace encoding of NaN)
+            3 => if cx.derive { vec![0, 1, 4, 6] } else { vec![0, -2, 1, 4] },
             _ => vec![NAN_W],
         };
         let len = rng.gen_range(3..=maxlen);
